@@ -51,10 +51,17 @@ func mergedOf(hs [][]string) []string {
 	return m
 }
 
-func genHeaders(r *rand.Rand, k int) [][]string {
+func genHeaders(r *rand.Rand, k int, order string) [][]string {
 	for {
 		var hs [][]string
 		mode := r.Intn(5)
+		// where the output order does not depend on the reference order (every order but coordinate), the
+		// inputs may list the same references in different orders: the merged list is still the first-seen
+		// union and every record keeps its names, but an input's ids are then a permutation of the merged ids
+		perm := order != "coordinate" && r.Intn(3) == 0
+		if perm {
+			mode = 5
+		}
 		for i := 0; i < k; i++ {
 			var h []string
 			switch mode {
@@ -62,6 +69,15 @@ func genHeaders(r *rand.Rand, k int) [][]string {
 				h = append(h, pool[:3]...)
 			case 4: // prefixes that grow and shrink: a later input adds references, a still later one redescribes an early one
 				h = append(h, pool[:1+(i%2)*(1+i/2)]...)
+			case 5: // a permutation of a subset of the pool (often of the whole pool)
+				for _, j := range r.Perm(len(pool)) {
+					if r.Intn(4) != 0 {
+						h = append(h, pool[j])
+					}
+				}
+				if len(h) == 0 {
+					h = []string{pool[r.Intn(len(pool))]}
+				}
 			case 1: // disjoint-ish
 				h = append(h, pool[(i*2)%len(pool)])
 				if r.Intn(2) == 0 && (i*2+1) < len(pool) {
@@ -82,7 +98,7 @@ func genHeaders(r *rand.Rand, k int) [][]string {
 		m := mergedOf(hs)
 		ok := true
 		for _, h := range hs {
-			if !subseq(h, m) {
+			if !perm && !subseq(h, m) {
 				ok = false
 			}
 		}
@@ -210,7 +226,7 @@ func Run(out string) {
 	for sc := 0; sc < n; sc++ {
 		order := []string{"coordinate", "coordinate", "queryname", "unsorted", "less", "none"}[r.Intn(6)]
 		k := 1 + r.Intn(maxK)
-		hs := genHeaders(r, k)
+		hs := genHeaders(r, k, order)
 		fail := make([]int, k)
 		failing := -1
 		if r.Intn(4) == 0 {
